@@ -8,6 +8,7 @@ The ADC theorems carry the explicit guard `V_min < V_max`: a constant record has
 (the code divides 0 by 0 there); it is an excluded point (`quantise_degenerate`).
 -/
 import OptiVerif.Lemmas.Quant
+import OptiVerif.Lemmas.QuantMono
 
 namespace OptiVerif.Props.C18
 open OptiVerif OptiVerif.Quant
@@ -240,6 +241,81 @@ theorem adc_saturates (vmin vmax : Rat) (n : Nat) (s : Rat) (hr : vmin < vmax) :
   · intro hs
     rw [code_high vmin vmax n s hr hs]
     exact ⟨rfl, fun hn => level_top vmin vmax n hn⟩
+
+/-! ### the quantiser as an order-preserving, idempotent, unit-free map -/
+
+/-- **adc_monotone**: the quantiser preserves order — a larger sample never receives a smaller code, nor (for `'v'`)
+    a smaller level.  Holds for every sample, inside or outside the full-scale range. -/
+theorem adc_monotone (vmin vmax : Rat) (n : Nat) (hr : vmin < vmax) (s s' : Rat) (h : s ≤ s') :
+    code vmin vmax n s ≤ code vmin vmax n s' ∧
+    (1 ≤ n → level vmin vmax n (code vmin vmax n s) ≤ level vmin vmax n (code vmin vmax n s')) := by
+  have hc := code_mono vmin vmax n hr h
+  refine ⟨hc, fun hn => ?_⟩
+  have htop : (0 : Rat) < ((top n : Int) : Rat) := by exact_mod_cast top_pos n hn
+  have hcq : ((code vmin vmax n s : Int) : Rat) ≤ ((code vmin vmax n s' : Int) : Rat) := by exact_mod_cast hc
+  have hd : 0 < vmax - vmin := by linarith
+  unfold level
+  have : ((code vmin vmax n s : Int) : Rat) / ((top n : Int) : Rat) ≤ ((code vmin vmax n s' : Int) : Rat) / ((top n : Int) : Rat) :=
+    div_le_div_of_nonneg_right hcq htop.le
+  nlinarith
+
+/-- the same over a whole record: the code sequence is ordered like the sample sequence -/
+theorem adc_monotone_record (vmin vmax : Rat) (n : Nat) (ot : OType) (signal : List Rat) (r : AdcOut) (hr : vmin < vmax)
+    (h : quantise vmin vmax n ot signal = .ok r) (j k : Nat) (hj : j < signal.length) (hk : k < signal.length)
+    (hjk : signal[j] ≤ signal[k]) :
+    ∃ (hj' : j < r.codes.length) (hk' : k < r.codes.length), r.codes[j] ≤ r.codes[k] := by
+  obtain ⟨_, _, hc, _⟩ := quantise_ok vmin vmax n ot signal r h
+  have hl : r.codes.length = signal.length := by rw [hc]; simp
+  refine ⟨by omega, by omega, ?_⟩
+  simp only [hc, List.getElem_map]
+  exact code_mono vmin vmax n hr hjk
+
+/-- **adc_requantise_fixed**: every one of the `2ⁿ` codes is attained — by its own level — and a level is a fixed point
+    of the quantiser: converting an already converted sample again (same full scale) changes nothing. -/
+theorem adc_requantise_fixed (vmin vmax : Rat) (n : Nat) (hn : 1 ≤ n) (hr : vmin < vmax) :
+    (∀ c : Int, 0 ≤ c → c ≤ 2 ^ n - 1 → code vmin vmax n (level vmin vmax n c) = c) ∧
+    (∀ s : Rat, level vmin vmax n (code vmin vmax n (level vmin vmax n (code vmin vmax n s))) =
+      level vmin vmax n (code vmin vmax n s)) := by
+  refine ⟨fun c h0 h1 => code_level vmin vmax n hn hr c h0 h1, fun s => ?_⟩
+  have := code_range vmin vmax n s
+  rw [code_level vmin vmax n hn hr _ this.1 this.2]
+
+/-- the same over a whole record (`'v'`): quantising the output of the quantiser returns the same codes and levels -/
+theorem adc_requantise_record (vmin vmax : Rat) (n : Nat) (signal : List Rat) (r : AdcOut) (hr : vmin < vmax)
+    (h : quantise vmin vmax n .v signal = .ok r) :
+    ∃ r', quantise vmin vmax n .v r.out = .ok r' ∧ r'.codes = r.codes ∧ r'.out = r.out := by
+  obtain ⟨_, _, hc, ho⟩ := quantise_ok vmin vmax n .v signal r h
+  rcases ho with ⟨hn, _⟩ | ⟨_, hn, ho⟩
+  · cases hn
+  · have hn0 : n ≠ 0 := by omega
+    have hne : vmax ≠ vmin := ne_of_gt hr
+    have hfix : r.out.map (code vmin vmax n) = r.codes := by
+      rw [ho, List.map_map]
+      conv_rhs => rw [← List.map_id r.codes]
+      apply List.map_congr_left
+      intro c hcm
+      have := adc_codes_range vmin vmax n .v signal r h c hcm
+      simpa using code_level vmin vmax n hn hr c this.1 this.2
+    refine ⟨⟨vmin, vmax, r.out.map (code vmin vmax n), (r.out.map (code vmin vmax n)).map (level vmin vmax n)⟩, ?_, hfix, ?_⟩
+    · simp [quantise, hne, hn0]
+    · simp only [hfix]; exact ho.symm
+
+/-- **adc_unit_free**: a change of units `x ↦ a·x + b` (`a > 0`) applied to the samples and to the full-scale range
+    leaves every code unchanged, and maps every level accordingly -/
+theorem adc_unit_free (vmin vmax : Rat) (n : Nat) (a b : Rat) (ha : 0 < a) (hr : vmin < vmax) (s : Rat) :
+    code (a * vmin + b) (a * vmax + b) n (a * s + b) = code vmin vmax n s ∧
+    (1 ≤ n → level (a * vmin + b) (a * vmax + b) n (code (a * vmin + b) (a * vmax + b) n (a * s + b)) =
+      a * level vmin vmax n (code vmin vmax n s) + b) := by
+  have hcode : code (a * vmin + b) (a * vmax + b) n (a * s + b) = code vmin vmax n s := by
+    rw [code_eq, code_eq, pos_affine vmin vmax n a b ha hr]
+  exact ⟨hcode, fun hn => by rw [hcode, level_affine vmin vmax n a b _ hn]⟩
+
+/-- non-vacuity: order preserved, levels are fixed points, volts ↦ millivolts + offset keeps the codes (3 bits) -/
+example : (quantise 0 7 3 .n [-1, 0, 1/3, 1/2, 5/2, 7/2, 7, 9]).map (·.codes) = .ok [0, 0, 0, 0, 2, 4, 7, 7] ∧
+    (quantise 5 7005 3 .n ([-1, 0, 1/3, 1/2, 5/2, 7/2, 7, 9].map (fun x => 1000 * x + 5))).map (·.codes)
+      = .ok [0, 0, 0, 0, 2, 4, 7, 7] ∧
+    (quantise 0 7 3 .v [0, 1, 2, 3, 4, 5, 6, 7]).map (·.out) = .ok [0, 1, 2, 3, 4, 5, 6, 7] := by
+  decide +kernel
 
 /-- rounding is half-to-even (`np.round`): ties go to the even code -/
 example : roundHalfEven (1/2) = 0 ∧ roundHalfEven (3/2) = 2 ∧ roundHalfEven (5/2) = 2 ∧ roundHalfEven (-1/2) = 0 := by
